@@ -195,6 +195,13 @@ pub fn solve_milp_lp_problem_with(
     });
     match solved {
         Ok(s) => {
+            // microlp can come back with undefined values (seen on continuous models with
+            // free variables): that is a failure of the solver, not a solution
+            if s.objective().is_nan() || microlp_vars.iter().any(|v| s.var_value(*v).is_nan()) {
+                return Err(SolverError::Other(
+                    "the solver returned undefined values for this model".to_string(),
+                ));
+            }
             // a limit (time, MIP gap) can stop the search early: only a proven
             // optimum may be labelled optimal, an incumbent is merely feasible and
             // an interrupted search without incumbent has no solution at all
